@@ -26,7 +26,15 @@ def run(ctx) -> None:
         raise AnalysisError("anchor-missing module-level stream_events / wait_event")
 
     # ------------------------------------------------------------------ R1 dispatch loop
-    loops = [n for n in walk_own(D.node) if isinstance(n, ast.For) and any(isinstance(x, ast.Attribute) and x.attr == streams for x in ast.walk(n.iter))]
+    from ..dataflow import ReachingDefs
+
+    drd = ReachingDefs(a, D)
+    loop_iter = {}
+    for n in walk_own(D.node):
+        if isinstance(n, ast.For):
+            itn = [x for x in dcfg.live_nodes() if x.kind == "for_iter" and x.ast is n.iter]
+            loop_iter[id(n)] = drd.def_expr(itn[0].id, n.iter) if itn else n.iter
+    loops = [n for n in walk_own(D.node) if isinstance(n, ast.For) and any(isinstance(x, ast.Attribute) and x.attr == streams for x in ast.walk(loop_iter[id(n)]))]
     sends = [c for c in walk_own(D.node) if isinstance(c, ast.Call) and call_name(c) in ("send_nowait", "send")]
     if not loops:
         rep.violate("C10.R1", D, D.node, "dispatch does not iterate over the subscriber list")
@@ -73,10 +81,10 @@ def run(ctx) -> None:
         bare = [h for h in hs_in_loop if h.type is None or "BaseException" in handler_names(h.type)]
         rep.check("C10.R1", not bare, D, bare[0] if bare else snd, "only stream-state exceptions are absorbed", "dispatch absorbs every exception of a send (BaseException)")
         # the loop covers the whole list
-        it = lp.iter
+        it = loop_iter[id(lp)]
         whole = (isinstance(it, ast.Call) and call_name(it) in ("list", "tuple", "copy") and (self_attr(it.args[0]) == streams if it.args else self_attr(it.func.value) == streams)) or self_attr(it) == streams or (isinstance(it, ast.Subscript) and self_attr(it.value) == streams and isinstance(it.slice, ast.Slice) and it.slice.lower is None and it.slice.upper is None and it.slice.step is None)
         rep.check("C10.R1", bool(whole), D, lp, "the loop covers every current subscriber", f"the loop iterates `{ast.unparse(it)}`: not every subscriber is served")
-        brk = [n for n in ast.walk(lp) if isinstance(n, (ast.Break, ast.Return))]
+        brk = [n for n in ast.walk(lp) if isinstance(n, (ast.Break, ast.Return))]  # `continue` is fine
         rep.check("C10.R1", not brk, D, brk[0] if brk else lp, "no early exit from the delivery loop", "the delivery loop can end early")
     rep.floor("C10.R1", len(loops) + len(sends), 2)
 
